@@ -24,15 +24,15 @@ PROPS = ("C03", "C04")
 BASE = dict(ActStrict=True, ShiftByMin=True, LatentCPs=set(), DoEmit=True, PairSameRow=False, ColdWraps=False,
             NoBreak=False, BruteForce=False)
 CFG = {
-    "quick": dict(Temps={0, 100, 200}, CPs={1, 2}, DTCs={0, 50}, MaxStreams=3, HotOpts={0, 1, 2, 4, 5, 6}, ColdOpts={0, 2, 3, 5, 6}),
-    "deepA": dict(Temps={0, 100, 200, 300}, CPs={1, 2}, DTCs={0, 50}, MaxStreams=3, HotOpts={0, 1, 2, 3, 4, 5, 6}, ColdOpts={0, 1, 2, 3, 4, 5, 6}),
+    "quick": dict(Temps={0, 100, 200}, CPs={1, 2}, DTCs={0, 50}, MaxStreams=3, HotOpts={0, 1, 2, 4, 5, 6, 7}, ColdOpts={0, 2, 3, 5, 6, 7}),
+    "deepA": dict(Temps={0, 100, 200, 300}, CPs={1, 2}, DTCs={0, 50}, MaxStreams=3, HotOpts={0, 1, 2, 3, 4, 5, 6, 7}, ColdOpts={0, 1, 2, 3, 4, 5, 6, 7}),
     "deepB": dict(Temps={0, 100, 200}, CPs={1, 2}, DTCs={0, 50}, MaxStreams=4, HotOpts={2, 4}, ColdOpts={2, 4}),
     "tiny": dict(Temps={0, 100, 200}, CPs={1, 2}, DTCs={0, 50}, MaxStreams=2, HotOpts={0, 1, 2, 3, 5}, ColdOpts={0, 1, 2, 3}),
 }
 INVS = ["C03_Sums", "C04_Feasible", "C04_Optimal", "C04_BruteForce", "EmitCase"]
 
 
-def tlc_cases(name, overrides=None, emit=True):
+def tlc_cases(name, overrides=None, emit=True, invs=None):
     consts = dict(BASE); consts.update(CFG[name])
     if overrides:
         consts.update(overrides)
@@ -40,7 +40,7 @@ def tlc_cases(name, overrides=None, emit=True):
     tmp = Path(tempfile.mkdtemp(prefix="tlccfg_"))
     try:
         cfg = tmp / "mc.cfg"
-        write_cfg(cfg, spec="Spec", constants=consts, invariants=INVS)
+        write_cfg(cfg, spec="Spec", constants=consts, invariants=invs or INVS)
         return run_tlc("Utility.tla", cfg, workers=16, xmx="8g")
     finally:
         shutil.rmtree(tmp, ignore_errors=True)
@@ -78,10 +78,11 @@ def build_zone(case, emb: Emb, name="Z"):
                     dt_cont=emb.dT(s["dtc"]), htc=1.0, is_process_stream=True)
         (z.hot_streams if s["k"] == "H" else z.cold_streams).add(st)
     for j, u in enumerate(case["HU"]):
-        z.hot_utilities.add(Stream(name=f"HU{j+1}", t_supply=emb.T(u["hi"]), t_target=emb.T(u["lo"]), heat_flow=0.0,
+        # lo/hi are the SHIFTED levels; a utility's own contribution puts its real temperatures further out
+        z.hot_utilities.add(Stream(name=f"HU{j+1}", t_supply=emb.T(u["hi"] + u["dtc"]), t_target=emb.T(u["lo"] + u["dtc"]), heat_flow=0.0,
                                    dt_cont=emb.dT(u["dtc"]), htc=1.0, price=1.0, is_process_stream=False))
     for j, u in enumerate(case["CU"]):
-        z.cold_utilities.add(Stream(name=f"CU{j+1}", t_supply=emb.T(u["lo"]), t_target=emb.T(u["hi"]), heat_flow=0.0,
+        z.cold_utilities.add(Stream(name=f"CU{j+1}", t_supply=emb.T(u["lo"] - u["dtc"]), t_target=emb.T(u["hi"] - u["dtc"]), heat_flow=0.0,
                                     dt_cont=emb.dT(u["dtc"]), htc=1.0, price=1.0, is_process_stream=False))
     return z
 
@@ -166,8 +167,14 @@ def replay(args):
             if x > case["coldPinch"] and uc > tol:
                 bad("C04.feasible.cold_above_pinch", T=emb.T(x), utility_heat_above=uc); break
     # lowest-grade-first optimum (isothermal ladders): TLC's allocation equals the closed form (invariant C04_Optimal)
-    exp_h = [emb.Q(float(fr(q))) for q in case["hotQ"]]
-    exp_c = [emb.Q(float(fr(q))) for q in case["coldQ"]]
+    # expected: the definitional lowest-grade-first optimum on the SHIFTED scale (equal to the specification's allocation
+    # except in the known-finding class kfOrder, where the code -- and the implementation-shaped action -- follow the real order)
+    if case["isothermal"]:
+        exp_h = [emb.Q(float(q)) for q in case["optQ"]["hot"]]
+        exp_c = [emb.Q(float(q)) for q in case["optQ"]["cold"]]
+    else:
+        exp_h = [emb.Q(float(fr(q))) for q in case["hotQ"]]
+        exp_c = [emb.Q(float(fr(q))) for q in case["coldQ"]]
     def by_level(qs, us):          # utilities at one and the same level are interchangeable: compare the level's total
         tot = {}
         for q, u in zip(qs, us):
@@ -187,6 +194,11 @@ def kf_glide(v, f):
     return bool(v.case.get("kfGlide")) and v.clause.startswith("C04.feasible")
 
 
+def kf_order(v, f):
+    """KF-C04-contribution-order: real and shifted supply orders of the utilities differ (TLC tags the case)."""
+    return bool(v.case.get("kfOrder")) and v.clause == "C04.lowest_grade_first"
+
+
 def mutant_selftest(run):
     res = {}
     for sw, val in (("ColdWraps", True), ("NoBreak", True)):
@@ -198,6 +210,10 @@ def mutant_selftest(run):
     res["closed_form_vs_brute_force"] = r.violated or "holds"
     if r.violated:
         run.machinery_errors.append("closed-form optimum not maximal by brute force: " + r.error_trace[:800])
+    r = tlc_cases("tiny", overrides={"HotOpts": {0, 7}, "ColdOpts": {0, 7}}, emit=False, invs=["C04_OptimalStrict"])
+    res["contribution_order_class_nonempty"] = r.violated
+    if not r.violated:
+        run.machinery_errors.append("known-finding class kfOrder is empty: C04_OptimalStrict holds on ladder option 7")
     r = tlc_cases("tiny", overrides={"PairSameRow": True}, emit=False)
     res["corrected_bound_feasible_everywhere"] = r.violated or "holds"
     run.notes["mutant_models"] = res
@@ -205,6 +221,7 @@ def mutant_selftest(run):
 
 def check(prop, tier, run: Run, replay_case=None):
     run.register_matcher("kf_glide", kf_glide)
+    run.register_matcher("kf_order", kf_order)
     pre = prop + "."
     if replay_case is not None:
         if replay_case.get("leg") == "T":
@@ -222,7 +239,9 @@ def check(prop, tier, run: Run, replay_case=None):
     names = ["quick"] if tier == "quick" else ["quick", "deepA", "deepB"]
     nontriv = set()
     for name in names:
-        res = tlc_cases(name)
+        # ladders 6 (two utilities at one level) and 7 (contribution order) are about C04's optimality clause; C03's quick tier skips them
+        ov = dict(HotOpts=CFG[name]["HotOpts"] - {6, 7}, ColdOpts=CFG[name]["ColdOpts"] - {6, 7}) if (prop == "C03" and tier == "quick") else None
+        res = tlc_cases(name, overrides=ov)
         run.add_tlc(res, name)
         if res.violated:
             run.machinery_errors.append(f"Leg M: spec/Utility.tla violates {res.violated} ({name}):\n{res.error_trace[:1500]}")
